@@ -48,9 +48,9 @@ def pos(rng, lo=0.05, hi=5.0):
 
 def sample_args(rng, name):
     if name == 'piersonMoskowitzSpectrum':
-        return (pos(rng, 0.1, 3), pos(rng, 5, 30), rng.choice([0.0081, 0.01]), rng.choice([0.74, 1.0]), 9.81)
+        return (pos(rng, 0.1, 3), pos(rng, 5, 30), rng.choice([0.0081, 0.01]), rng.choice([0.74, 1.0]), rng.choice([9.81, 9.81, 32.174, 1.0]))
     if name == 'jonswapSpectrum':
-        return (pos(rng, 0.1, 3), pos(rng, 0.3, 1.5), 0.0081, 1.25, rng.choice([1.0, 2.0, 3.3, 5.0]), 9.81)
+        return (pos(rng, 0.1, 3), pos(rng, 0.3, 1.5), rng.choice([0.0081, 0.0081, 0.012]), rng.choice([1.25, 1.25, 1.0]), rng.choice([1.0, 2.0, 3.3, 5.0]), rng.choice([9.81, 9.81, 32.174, 1.0]))
     if name == 'isscSpectrum':
         return (pos(rng, 0.1, 3), pos(rng, 0.3, 1.5), pos(rng, 0.5, 12))
     if name == 'gaussianSwellSpectrum':
@@ -139,11 +139,14 @@ def explore(res, rng, n, areas):
             if lsm.gaussianSwellSpectrum(w, wp, Hs, sg) > lsm.gaussianSwellSpectrum(wp, wp, Hs, sg) * (1 + 1e-12):
                 fail(res, 'peak', 'gaussianSwellSpectrum', (w, wp, Hs, sg), None)
             gm = rng.choice([1.0, 2.0, 3.3, 6.0])
-            j, j1, jp = (lsm.jonswapSpectrum(w, wp, 0.0081, 1.25, gm, 9.81), lsm.jonswapSpectrum(w, wp, 0.0081, 1.25, 1.0, 9.81),
-                         lsm.jonswapSpectrum(wp, wp, 0.0081, 1.25, gm, 9.81))
+            gg = rng.choice([9.81, 9.81, 32.174, 1.0, 3.7])          # gravity in other units / on other planets
+            j, j1, jp = (lsm.jonswapSpectrum(w, wp, 0.0081, 1.25, gm, gg), lsm.jonswapSpectrum(w, wp, 0.0081, 1.25, 1.0, gg),
+                         lsm.jonswapSpectrum(wp, wp, 0.0081, 1.25, gm, gg))
             res.evaluations += 1
             if j > jp * (1 + 1e-12):
-                fail(res, 'peak', 'jonswapSpectrum', (w, wp, gm), [j, jp])
+                fail(res, 'peak', 'jonswapSpectrum', (w, wp, gm, gg), [j, jp])
+            if not gen.close(j / lsm.jonswapSpectrum(w, wp, 0.0081, 1.25, gm, 9.81), (gg / 9.81) ** 2, 1e-12):
+                fail(res, 'g-squared', 'jonswapSpectrum', (w, wp, gm, gg), [j, lsm.jonswapSpectrum(w, wp, 0.0081, 1.25, gm, 9.81)])
             if not (1 - 1e-12 <= j / j1 <= gm * (1 + 1e-12)):
                 fail(res, 'gamma-factor', 'jonswapSpectrum', (w, wp, gm), j / j1)
         gmp = 3.3
